@@ -173,13 +173,16 @@ def update_uid_counter(H, idx):
 
     """
     uid = next(H._edge_uid)
-    if (
-        not isinstance(idx, str)
-        and not isinstance(idx, tuple)
-        and float(idx).is_integer()
-        and uid <= idx
-    ):
+    try:
         # tuple comes from merging edges and doesn't have as as_integer() method.
+        # An ID that cannot be read as a number (or is too large for a float)
+        # must not make the call fail after the edge has been stored.
+        is_integer = isinstance(idx, int) or (
+            not isinstance(idx, (str, tuple)) and float(idx).is_integer()
+        )
+    except (TypeError, ValueError, OverflowError):
+        is_integer = False
+    if is_integer and uid <= idx:
         start = int(idx) + 1
         # we set the start at one plus the maximum edge ID that is an integer,
         # because count() only yields integer IDs.
